@@ -515,6 +515,8 @@ pub struct World {
     pub stabilised_once: bool,
     /// C06 reference: engine-view value of every node, pair vars separately
     pub c06_val: BTreeMap<usize, SV>,
+    /// per node: produced a result in the last stabilise that its cutoff did not suppress (C06 model)
+    pub c06_ns: Vec<bool>,
     pub c06_pval: BTreeMap<usize, Pair>,
     pub written: BTreeSet<usize>,
     pub var_dropped: BTreeSet<usize>,
@@ -608,6 +610,7 @@ impl World {
             late_made: vec![false; cfg.late_specs.len()],
             stabilised_once: false,
             c06_val: BTreeMap::new(),
+            c06_ns: vec![],
             c06_pval: BTreeMap::new(),
             written: BTreeSet::new(),
             var_dropped: BTreeSet::new(),
@@ -1435,11 +1438,12 @@ impl World {
         for inv in cut_log {
             violation("C06/cutoff-function-consulted-unexpectedly", format!("{:?} called with {:?} in stabilise #{round}", inv.key, inv.args));
         }
+        self.c06_ns = ns;
         // observers show the engine-view values
         let obs = self.obs.borrow();
         for s in obs.iter() {
-            if s.st == OSt::InUse {
-                if let (Some(Ok(v)), Some(w)) = (&s.last, self.c06_val.get(&s.node)) {
+            if s.st == OSt::InUse && !s.handles.is_empty() {
+                if let (Ok(v), Some(w)) = (&s.handles[0].try_get_value(), self.c06_val.get(&s.node)) {
                     let (v2, w2, node) = (v.clone(), w.clone(), s.node);
                     require("C06/observed-value", F::eq(v, w), move || format!("observer on node {node} returned {v2:?}, the last result of that node is {w2:?}"));
                 }
@@ -2139,6 +2143,10 @@ impl World {
                 s.st = OSt::InUse;
             }
         }
+        if self.cfg.mon.c06 {
+            let log: Vec<Inv> = self.sh.log.borrow()[log_start..].to_vec();
+            self.c06_after_stabilise(round, &log);
+        }
         let mut memo = BTreeMap::new();
         let gens = self.sh.gens.borrow().clone();
         let n_slots = self.obs.borrow().len();
@@ -2163,6 +2171,9 @@ impl World {
                 } else {
                     v
                 }
+            } else if self.cfg.mon.c06 && self.cfg.mon.c09 {
+                // worlds with arbitrary cutoffs: the value is the one of the cutoff-aware model
+                self.c06_val.get(&node).cloned()
             } else if self.cfg.mon.c01 || self.cfg.mon.c09 || self.cfg.mon.c03 {
                 Some(self.eval(node, &mut memo))
             } else {
@@ -2227,7 +2238,18 @@ impl World {
                         Exp::Init(want.clone().unwrap())
                     } else {
                         let cur = want.clone().unwrap();
+                        if self.cfg.mon.c06 {
+                            // "changed as judged by its cutoff"
+                            cover(if self.c06_ns[node] { "subscribed-node-not-cut-off" } else { "subscribed-node-cut-off-or-idle" });
+                        }
                         match &prev {
+                            _ if self.cfg.mon.c06 => {
+                                if self.c06_ns[node] {
+                                    Exp::Changed(cur)
+                                } else {
+                                    Exp::None
+                                }
+                            }
                             Some(Ok(p)) => {
                                 if exec::decide(F::eq(p, &cur)) {
                                     Exp::None
@@ -2391,9 +2413,6 @@ impl World {
                     violation(&format!("C05/unneeded-node-computed/{role}"), format!("{:?} ran in stabilise #{round} but is in no live observer's cone (start {:?}, end {:?})", inv.key, cone_start, cone_end));
                 }
             }
-        }
-        if self.cfg.mon.c06 {
-            self.c06_after_stabilise(round, &log);
         }
         if self.cfg.mon.c06g {
             self.c06_gating(round, &log);
